@@ -34,6 +34,55 @@ def tm_layout(service, subservice, apid, seq, msgcnt, ref, dest, version, stamp,
     return body + [c // 256, c % 256]
 
 
+# ---- header fields pushed out of range on a live PUS object (C01's refusal clause, seen through PusTc / PusTm)
+HDR_OUT_OF_RANGE = {3: [2048, 2049, 4095, 32768, 65535, 65536, 2 ** 32, -1],           # header field index -> values
+                    5: [16384, 16385, 32768, 49152, 65535, 65536, 2 ** 64, -1],
+                    6: [65536, 65537, 2 ** 32, -1]}
+HDR_LIMIT = {3: 2048, 5: 16384, 6: 65536}
+SERIALISERS = {0: "pack()", 1: "pack(recalc_crc=False)", 2: "calc_crc()", 7: "to_space_packet()", 26: "pack()", 27: "pack()"}
+
+
+def hdr_range_ok(S):
+    return 0 <= S["apid"] < 2048 and 0 <= S["count"] < 16384 and 0 <= S["dlen"] < 65536
+
+
+def out_of_range_verdict(cls, k, where, S, st):
+    """every serialisation route of a PUS packet packs the primary header first: with an APID / sequence count / data
+    length out of range it must refuse with ValueError ('refused ... instead of being encoded'); st = [0] or
+    [1, exception class]"""
+    bad = {x: S[x] for x, hi in (("apid", 2048), ("count", 16384), ("dlen", 65536)) if not 0 <= S[x] < hi}
+    if st[0] == 0:
+        return ("C01/%s.%s/out-of-range-encoded" % (cls, SERIALISERS[k].split("(")[0]),
+                "%s: primary header field(s) %s out of range, yet %s went through instead of raising ValueError" % (where, bad, SERIALISERS[k]))
+    if len(st) < 2 or st[1] not in (1, 2, 3):
+        return ("C01/%s.%s/out-of-range-wrong-error" % (cls, SERIALISERS[k].split("(")[0]),
+                "%s: primary header field(s) %s out of range: %s raised exception class %s, the property prescribes ValueError" % (
+                    where, bad, SERIALISERS[k], st[1:]))
+    return None
+
+
+def out_of_range_histories(rng, routes, heal, views=((0,), (1,), (2,), (7,), (26, 0), (27, 0)), primes=((), ((0,),), ((2,),), ((7,),))):
+    """operation lists (setter op 30): a header field pushed out of range through every public route, then a serialiser
+    (must refuse), a look at the object, another serialiser, the field healed by an in-range assignment, a serialiser
+    and a look again.  routes: field -> number of routes; heal(f) -> an in-range value"""
+    out, i = [], 0
+    for f in (3, 5, 6):
+        for route in range(routes[f]):
+            for v in HDR_OUT_OF_RANGE[f]:
+                a, b, c = views[i % len(views)], rng.choice(views), rng.choice(views)
+                pr = primes[(i // len(views)) % len(primes)]
+                out.append([list(x) for x in pr] + [[30, f, v, route], list(a), [8], list(b), [30, f, heal(f), route], list(c), [8]])
+                i += 1
+    for _ in range(40):                   # two fields out of range, healed one after the other
+        f1, f2 = rng.sample([3, 5, 6], 2)
+        ops = [[30, f1, rng.choice(HDR_OUT_OF_RANGE[f1]), rng.randrange(routes[f1])],
+               [30, f2, rng.choice(HDR_OUT_OF_RANGE[f2]), rng.randrange(routes[f2])], list(rng.choice(views)),
+               [30, f1, heal(f1), rng.randrange(routes[f1])], list(rng.choice(views)), [8],
+               [30, f2, heal(f2), rng.randrange(routes[f2])], list(rng.choice(views)), [8]]
+        out.append(ops)
+    return out
+
+
 def rbytes(rng, n):
     return [rng.randrange(256) for _ in range(n)]
 
